@@ -57,6 +57,21 @@ def compare(ctx, lk, conn, stmt, select, label):
     if strip_names(a) != strip_names(b):
         ctx.record_violation('%s-differs-from-select' % label, '%s -> %s | %s -> %s' % (stmt, a[:300], select, b[:300]),
                              payload={'statement': stmt, 'select': select})
+    if label == 'journal' and not a.startswith('EXC:'):
+        # the register itself: the last column is the running sum of the position column, row after row
+        from beancount.core import amount as _amount, inventory as _inventory
+        running = _inventory.Inventory()
+        for k, row in enumerate(conn.execute(stmt).fetchall()):
+            pos, bal = row[-2], row[-1]
+            if isinstance(pos, _amount.Amount):
+                running.add_amount(pos)
+            elif pos is not None:
+                running.add_position(pos)
+            if running != bal:
+                ctx.record_violation('journal-running-balance', '%s: row %d shows balance %s, the positions so far sum to %s' % (stmt, k, bal, running),
+                                     payload={'statement': stmt})
+                break
+        ctx.count('journal-running-balance')
 
 
 def norm_entry(e):
@@ -131,13 +146,33 @@ def print_filter_clause_layer(ctx, lk, conn, entries, options):
                     payload={'statement': text})
 
 
+def _is_txn(e):
+    return isinstance(e, data.Transaction)
+
+
+TAG_CONDITIONS = {
+    "'trip' IN tags": lambda e: _is_txn(e) and 'trip' in (e.tags or ()),
+    "'inv-1' IN links": lambda e: _is_txn(e) and 'inv-1' in (e.links or ()),
+    "tags IS NULL": lambda e: not _is_txn(e) or e.tags is None,
+    "links IS NOT NULL": lambda e: _is_txn(e) and e.links is not None,
+    # (NOT of NULL is true in BQL: directives without a tags column value pass)
+    "NOT ('work' IN tags)": lambda e: not (_is_txn(e) and 'work' in (e.tags or ())),
+}
+
+TAGGED_TAIL = """
+2020-03-02 note Assets:Bank:Checking "a tagged note" #trip ^inv-1
+2020-03-03 document Assets:Bank:Checking "/tmp/tagged.pdf" #work ^inv-2
+2020-03-04 note Assets:Bank:Checking "a plain note"
+"""
+
+
 def print_layer(ctx, lk, conn, entries, options):
     print_clause_layer(ctx, lk, conn, entries, options)
     print_filter_clause_layer(ctx, lk, conn, entries, options)
     for frm in [None, "year >= 2020", "type = 'transaction'", "type != 'transaction'", "flag = '!'", "year = 1800",
                 "has_account('Assets:Bank')", "narration ~ 'rent' OR payee ~ 'Cafe'",
                 # conditions that are not of boolean type hold where their value is truthy, as in WHERE
-                "tags", "links", "payee", "meta['ref']", "day - 15", "narration", "NOT tags"]:
+                "tags", "links", "payee", "meta['ref']", "day - 15", "narration", "NOT tags"] + list(TAG_CONDITIONS):
         text = 'PRINT' + (' FROM ' + frm if frm else '')
         try:
             stmt = parser.parse(text)
@@ -161,6 +196,13 @@ def print_layer(ctx, lk, conn, entries, options):
                 ctx.record_violation('print-filter-has-account', '%s selects %d directives, %d name a matching account (%s)' % (
                     text, len(want), len(direct), sorted({type(e).__name__ for e in direct} - {type(e).__name__ for e in want})),
                     payload={'statement': text})
+        if frm in TAG_CONDITIONS:
+            # ... and, for tags and links, directly: they are the tags and links of TRANSACTIONS (NULL for every other
+            # kind of directive, whether or not it carries tags of its own)
+            direct = [e for e in entries if TAG_CONDITIONS[frm](e)]
+            if [hash_entry(e) for e in direct] != [hash_entry(e) for e in want]:
+                ctx.record_violation('print-filter-tags', '%s selects %d directives (%s), by the tags of transactions it is %d' % (
+                    text, len(want), sorted({type(e).__name__ for e in want}), len(direct)), payload={'statement': text})
         ctx.evaluations += 1
         if len(want) >= 2:
             ctx.nontrivial_hashes.add(hash((lk, text)))
@@ -270,6 +312,8 @@ def run(ctx):
     n = 10 if ctx.thorough() else 2
     for lk in range(n):
         text, entries, errors, options = ledgers.gen_ledger(rng, ntxn=rng.range(6, 18))
+        # notes and documents carry tags and links of their own
+        entries, errors, options = ledgers.load(text + TAGGED_TAIL)
         conn = ledgers.connect(entries, errors, options)
         # PRINT first (cheap); it also leaves its traces, if any, on the connection the other statements then use
         print_layer(ctx, lk, conn, entries, options)
